@@ -113,6 +113,8 @@ pub use crate::util::heap::gc_trigger::verif_hooks as gc_trigger_hooks;
 #[path = "verif_system.rs"]
 mod system;
 pub use system::*;
+// C34 (family "immixlines"): Immix line mark states, line mark bytes, hole search, block states.
+pub use crate::policy::immix::immixspace::verif_lines as immix_lines;
 // C17 / C18 / C19 (family "race"): forwarding protocol functions, per-thread recorder of atomic
 // metadata operations, mark/log/pin transition helpers, block pool with a settable worker ordinal.
 pub mod race {
